@@ -20,9 +20,9 @@ DEPENDS = ['TidalPy/RadialSolver', 'TidalPy/utilities/dimensions', 'TidalPy/util
 MIN_DECISIVE = {'quick': 100, 'thorough': 2000}
 MIN_COUNTERS = {'quick': {'subspace_tests': 60, 'love_pairs': 60, 'z_values': 60}, 'thorough': {'subspace_tests': 1200, 'love_pairs': 1200}}
 CASE_TIMEOUT = 600
-RULE = ('each case = (monitor, core kind in {solid static, solid dynamic, liquid dynamic, liquid static}, family, l 2..8, frequency 1e-6..1e-3, random core '
+RULE = ('each case = (monitor, core kind in {solid static, solid dynamic, liquid dynamic, liquid static}, family, l 2..8, frequency 1e-6..1e-3 (liquid monitors 5e-5..1e-2), random core '
         'properties incl. soft lossy rigidities so that both branches of z(x^2) are driven, start radius); non-trivial = all solves succeeded and are '
-        'stable under a 100x tighter tolerance (subspace/r0sweep/families) or the helper value was compared (zfunc)')
+        'stable under a 100x tighter tolerance (subspace/subspace_liquid/r0sweep/families), both families returned finite liquid vectors (liquid_span) or the helper value was compared (zfunc)')
 ASSUMPTIONS = ['subspace residual tolerance 1e3 rtol + 1e-9 after scaling rows by (1, r/|mu|, 1, r/|mu|, 1/(g r), 1/g)', 'Love-number budget 50 rtol + 10 (delta_a + delta_b)',
                'z reference: x j_{l+1}(x)/j_l(x) with 40-digit Bessel functions']
 G = 6.6743e-11
